@@ -338,6 +338,9 @@ class MultiThreadRunner(BaseRunner):
 
     def runner_loop_iteration(self) -> None:
         """Execute one iteration of the runner loop."""
+        # Forget workers that died so that they are replaced: _scale_up_processes
+        # counts tracked workers, and a dead one would hold its slot forever.
+        self._cleanup_dead_processes()
         self._scale_up_processes()
 
     def _waiting_for_results(
